@@ -269,7 +269,7 @@ def grammar_cases():
 
 
 def cli_cases(level):
-    """level 0 = quick (28 runs), 1 = widened quick (~90), 2 = thorough (~270)."""
+    """level 0 = quick (32 runs), 1 = widened quick (~110), 2 = thorough (~270)."""
     out = []
     contents = [["meta_ok", "meta_bad_enum", "meta_enum_case", "bad_bracket"],
                 ["meta_ok", "meta_missing_version", "meta_bad_enum", "meta_enum_case", "bad_bracket", "multi_ok"],
@@ -280,7 +280,7 @@ def cli_cases(level):
                [None, "META", "SKILL", "GEN_FIELDS", "GEN_BROKEN", "NOPE", "meta", "../../outside/EVIL", ""]][level]
     for c in contents:
         for s in schemas:
-            for fix in ((False, True) if level == 2 or s == "META" else (False,)):
+            for fix in ((False, True) if level >= 1 or s in ("META", "NOPE") else (False,)):
                 out.append({"tool": "cli_validate", "content": c, "schema": s, "fix": fix, "stdin": level == 2 and (len(out) % 3 == 0)})
             if level == 2 or s in (None, "META"):
                 out.append({"tool": "cli_write", "content": c, "schema": s})
